@@ -95,7 +95,7 @@ def _guards(init_node):
     """Raising guards of a constructor: list of (test, names mentioned incl. loop aliases)."""
     out = []
     for n in ast.walk(init_node):
-        if isinstance(n, ast.If) and body_always_raises(n.body):
+        if isinstance(n, ast.If) and (body_always_raises(n.body) or (n.orelse and body_always_raises(n.orelse))):
             names = {x.id for x in ast.walk(n.test) if isinstance(x, ast.Name)}
             for a in _anc(n):
                 if isinstance(a, ast.For) and isinstance(a.target, ast.Name) and a.target.id in names and isinstance(a.iter, (ast.Tuple, ast.List)):
@@ -192,7 +192,7 @@ def r2_parameters(ctx):
             # relative-only guards (min > max) do not bound
             used_by_exercised_op = False
             if only_exercised:
-                stored = _stored_attr(init, p)
+                stored = _stored_attr(init, p, corpus)
                 for r in roles:
                     for op in ROLE_OPS[r]:
                         m = corpus.method(ci, op)
@@ -212,7 +212,7 @@ def r2_parameters(ctx):
     ctx.floor('C17.R2', 'user-settable adapter parameters', n_params, 7)
 
 
-def _stored_attr(init, p):
+def _stored_attr(init, p, corpus=None):
     """Attribute names through which parameter p is stored on self (transitively
     through simple derived attributes in the MRO constructors)."""
     out = set()
@@ -226,8 +226,23 @@ def _stored_attr(init, p):
                 for t, v in zip(tg, vl):
                     if isinstance(t, ast.Attribute) and any(isinstance(x, ast.Name) and x.id == p for x in ast.walk(v)):
                         out.add(t.attr)
-    # derived: self._nonce_bytes = self.nonce_bits // 8 in a base constructor
-    return out | {'_' + p.replace('bits', 'bytes'), '_' + p} if out else out
+    # derived attributes: self._nonce_bytes = self.nonce_bits // 8 in a constructor of the MRO (transitively)
+    if out and corpus is not None and init.cls is not None:
+        inits = [c.methods['__init__'] for c in corpus.mro(init.cls) if '__init__' in c.methods]
+        changed = True
+        while changed:
+            changed = False
+            for ini in inits:
+                for a in ast.walk(ini.node):
+                    if isinstance(a, ast.Assign):
+                        tl = a.targets[0]
+                        tg = tl.elts if isinstance(tl, ast.Tuple) else [tl]
+                        vl = a.value.elts if isinstance(a.value, ast.Tuple) and isinstance(tl, ast.Tuple) else [a.value] * len(tg)
+                        for t, v in zip(tg, vl):
+                            if isinstance(t, ast.Attribute) and t.attr not in out and any(isinstance(x, ast.Attribute) and x.attr in out and isinstance(x.value, ast.Name) for x in ast.walk(v)):
+                                out.add(t.attr)
+                                changed = True
+    return out
 
 
 def r3_validator_consumers(ctx):
